@@ -28,7 +28,8 @@ PROBES = ["kill_inside_copy", "kill_between_files", "kill_holding_lock", "load_d
           "load_found_version_missing_then_recovered", "kill_inside_timestamp_write", "s1_enum_kill_beyond_last_step",
           "populator_interrupted_by_io_error", "waiter_gave_up_at_timeout", "load_not_judged_lock_timeout",
           "s5_refresh_overlaps_populator", "s5_load_overlaps_refresh", "load_retried_in_same_process",
-          "hung_holder_then_killed", "interval_truth_checked", "tz_not_utc", "tmp_on_other_device"]
+          "hung_holder_then_killed", "interval_truth_checked", "tz_not_utc", "tmp_on_other_device",
+          "waiter_entered_after_waiting"]
 RULE = ("Runs 0..S1_N-1 enumerate every crash point (kill before step k, plain and with a torn variant of a pending "
         "write, k = 0..139; probe s1_enum_kill_beyond_last_step shows the enumeration passed the last step) of the "
         "population of one (quick) / six (thorough) fixed file subsets, each followed by fresh loads of every file "
@@ -674,7 +675,13 @@ def execute(sc, script=None):
                     procs_meta.append((pi, spec, p))
                 sim.run()
                 if sim.truncated:
-                    raise RuntimeError("step cap reached (possible livelock) in phase %d" % pi)
+                    # bounded liveness: every process of a phase ends (returns, raises or is killed) within the step budget -
+                    # a waiter must give up at its timeout, nobody may spin
+                    live = [(m[1]["kind"], m[2].state) for m in procs_meta if m[0] == pi and m[2].state not in ("done", "failed", "killed")]
+                    violations.append(Violation(
+                        "O-timeout", "phase %d did not finish within %d scheduler steps: %s still running (a waiter that never "
+                        "gives up, or a loop without progress)" % (pi, sim.max_steps, live), "no-progress-within-step-budget").record(PROP))
+                    break
                 # quiescent point: no file with a version-pattern name may differ from its source
                 st = tree_state(cache)
                 states.append(core.digest(sorted((k, v) for k, v in st.items())))
@@ -920,6 +927,16 @@ def _check_history(W, sc, sim, events, procs_meta, violations, probe, lockworld,
                         "gave-up-before-timeout").record(PROP))
                 else:
                     probe("waiter_gave_up_at_timeout")
+    for e in events:
+        if e["ev"] == "enter-returned" and "STALL" not in faulted.get(e["pid"], ()):
+            waited = e["t1"] - e["t0"]
+            if waited > 1.0 + 0.25 + 0.1:
+                violations.append(Violation(
+                    "O-timeout", "a waiter was still waiting %.3f simulated s after calling __enter__ and then entered "
+                    "(timeout 1 s + check interval 0.25 s): it did not give up at its timeout" % waited,
+                    "waited-beyond-timeout").record(PROP))
+            elif waited > 0.3:
+                probe("waiter_entered_after_waiting")
     # ---- O-interval: a refresh that starts within the interval after a recorded timestamp is skipped.
     # t0 = content of last_update.txt read by the oracle at the instant CacheLock.__enter__ was called,
     # t  = the clock value the library read inside __enter__; asserted only when no other process touched
